@@ -71,6 +71,13 @@ M = [
  ("C19", "comparekv-bigendian", "item.go", "	la := int(binary.LittleEndian.Uint16(a[0:2]))", "	la := int(binary.BigEndian.Uint16(a[0:2]))"),
  ("C19", "writer-uint16-prefix", "item.go", "	binary.BigEndian.PutUint32(buf[0:4], uint32(itm.dataLen))", "	binary.BigEndian.PutUint16(buf[0:2], uint16(itm.dataLen))\n	buf[2], buf[3] = 0, 0"),
  ("C19", "checksum-after-close", "nitro.go", "	defer func() {\n		for _, w := range writers {\n			if w != nil {\n				if cerr := w.Close(); cerr != nil && err == nil {\n					err = cerr\n				}\n			}\n		}\n	}()\n\n	for shard := 0; shard < shards; shard++ {", "	closeWriters := func() {\n		for _, w := range writers {\n			if w != nil {\n				if cerr := w.Close(); cerr != nil && err == nil {\n					err = cerr\n				}\n			}\n		}\n	}\n	defer closeWriters()\n	_ = closeWriters\n\n	for shard := 0; shard < shards; shard++ {"),
+ ("C17", "acquire-backoff-no-release", "skiplist/access_barrier.go", "			ab.Release(bs)\n			goto retry", "			goto retry"),
+ ("C17", "cursor-close-no-release", "skiplist/iterator.go", "func (it *Iterator) Close() {\n	if it.bs != nil {\n		it.s.barrier.Release(it.bs)\n	}", "func (it *Iterator) Close() {\n	if it.bs != nil {\n	}"),
+ ("C13", "index-retry-no-search", "skiplist/skiplist.go", "			s.findPath(itm, insCmp, buf, sts)\n		}", "		}"),
+ ("C16", "flush-offset-small", "skiplist/access_barrier.go", "const barrierFlushOffset = math.MaxInt32 / 2", "const barrierFlushOffset = math.MaxInt16 / 2"),
+ ("C19", "writer-append-mode", "file.go", "os.O_WRONLY|os.O_CREATE, 0755", "os.O_WRONLY|os.O_CREATE|os.O_APPEND, 0755"),
+ ("C12", "missing-files-manifest-tolerated", "nitro.go", "	if bs, err = ioutil.ReadFile(filepath.Join(datadir, \"files.json\")); err != nil {\n		return nil, err\n	}\n	if err = json.Unmarshal(bs, &files); err != nil {\n		return nil, err\n	}", "	if bs, err = ioutil.ReadFile(filepath.Join(datadir, \"files.json\")); err == nil {\n		if err = json.Unmarshal(bs, &files); err != nil {\n			return nil, err\n		}\n	} else if !os.IsNotExist(err) {\n		return nil, err\n	}"),
+ ("C02", "getnode-empty-fastpath", "nitro.go", "func (w *Writer) GetNode(bs []byte) *skiplist.Node {\n", "func (w *Writer) GetNode(bs []byte) *skiplist.Node {\n	if w.ItemsCount()+w.count == 0 {\n		return nil\n	}\n"),
 ]
 
 def main():
